@@ -132,7 +132,12 @@ RlvHook(i) ==
     /\ pc = <<"rlv", i>>
     /\ invoked' = invoked \cup {<<"rlv", i>>}
     /\ IF cfg.rlv[i] = "truthy"
-       THEN Run("drop") /\ handled' = TRUE /\ pc' = <<"tail">>
+       THEN IF own \in {"fresh", "queued"}
+            THEN Run("drop") /\ handled' = TRUE /\ pc' = <<"tail">>
+            \* a subscriber already sent or dropped the chat line: the proxy's own drop is refused (an error it
+            \* logs and survives), the command does not count as handled, the message-level hooks still run
+            ELSE /\ pc' = <<"udp", 1>>
+                 /\ UNCHANGED <<own, wire, dropAcks, refused, copies, mutated, handled>>
        ELSE /\ pc' = IF i < N THEN <<"rlv", i + 1>> ELSE <<"udp", 1>>
             /\ UNCHANGED <<own, wire, dropAcks, refused, copies, mutated, handled>>
     /\ UNCHANGED <<cfg, logged>>
